@@ -214,6 +214,54 @@ PROPS = {
                       "create/assign begin only with the back-off deadline in the past and a needy request is refused meanwhile; owner => holder or in-flight request (per interface). Tied as C01.",
         "level_note": "Trusted as C01. Partial: the watermark band (liveness) is not proved; Manager-level drop of a delivered response (S6) is outside the per-interface model and is judged on the implementation's snapshots.",
     },
+    "C04": {
+        "pkg": "./svc/", "test": "TestVerif_Svc", "n_quick": 400, "n_thorough": 20000, "env": {"VERIF_PROP": "C04"},
+        "rule": "histories of 10..40 stimuli on the real networkService (AllocIP / ReleaseIP / GetIPInfo called directly) over the real pool: ADD / DEL / GET for 1..4 pods with current, older and newer "
+                "sandbox ids, requests overlapping the in-flight request of the same pod (cloud calls held open), cancellation of a request's context, cloud call outcomes, pods vanishing, GC passes. "
+                "Replies, store operations, per-interface pool calls and snapshots of pool + store at every quiescent point are compared with the model. non-trivial = at least one request was rejected as "
+                "'processing' or carried a sandbox id different from the stored one; distinct = distinct input vectors",
+        "trusted": ["testing/synctest virtual clock and quiescence detection (go1.26.8); gcPods is only started while no RPC holds the service's read lock (a goroutine parked on sync.RWMutex is not durably blocked for synctest)",
+                    "fake Kubernetes view (GetPod / GetLocalPods / PodExist with injectable API failure); recording store around the real bolt-backed DiskStorage with parking points before/after every Put and Delete",
+                    "simulated cloud and pool instrumentation as for C01; the replay's expansion of observations into labels is search code"],
+        "modelled": ["the gRPC transport (handlers are called directly); IPStickTime = 0 (the sticky-IP path is deprecated and not driven)",
+                     "Manager-level drop of a delivered response after cancellation (manager.go:215-218) is judged on snapshots (clause 406), not modelled"],
+        "assumptions": [],
+        "level_text": "Theorems: the pending set admits one request per pod and is restored at exit; a DEL/GET with another sandbox id releases nothing, changes no record and returns no configuration; DEL twice = once; "
+                      "a repeated ADD is pinned to the stored interface and there the pool can only return the entry the pod owns; the roll-back of a cancelled request preserves the pool invariant (per interface). "
+                      "Tied by replaying the service's complete log (replies, store operations, pool calls) through the model and comparing pool + store snapshots.",
+        "level_note": "Trusted: Coq kernel, extraction, driver, harness. 'A failed ADD hands back every address' is proved per interface (roll-back inside Local.commit); the Manager-level path is partial (checked on the implementation's snapshots).",
+    },
+    "C05": {
+        "pkg": "./svc/", "test": "TestVerif_Svc", "n_quick": 400, "n_thorough": 20000, "env": {"VERIF_PROP": "C05"},
+        "rule": "as C04 with crash points: the daemon is crashed (store file copied as it is on disk, every goroutine stopped, blocked cloud calls answered without effect) at quiescent points and while a handler is parked "
+                "before / after the disk write of its Put or Delete; a new pool is built from what the cloud has attached and the reopened store (daemon's filterENINotFound + Local.load), and the run continues. "
+                "After every restart the acknowledged allocations must still be owned by their pods and every owner must have a record. non-trivial = at least one crash with an acknowledged allocation; distinct = distinct input vectors",
+        "trusted": ["testing/synctest virtual clock and quiescence detection (go1.26.8); gcPods is only started while no RPC holds the service's read lock (a goroutine parked on sync.RWMutex is not durably blocked for synctest)",
+                    "fake Kubernetes view (GetPod / GetLocalPods / PodExist with injectable API failure); recording store around the real bolt-backed DiskStorage with parking points before/after every Put and Delete",
+                    "simulated cloud and pool instrumentation as for C01; the replay's expansion of observations into labels is search code"],
+        "modelled": ["bolt's commit atomicity / durability and the file system (a Put or Delete is atomic on disk; the crash copies the database file between operations)",
+                     "the daemon's start-up sequence beyond load() (builder.go) is reproduced by the harness"],
+        "assumptions": ["E8: a committed bolt transaction is atomic and durable"],
+        "level_text": "Theorems: for every crash position inside a handler, acknowledged ADD => record on disk, acknowledged DEL => none, memory never ahead of disk; after load() an address is owned only through a stored "
+                      "allocation that lists it (what was taken but not acknowledged is reclaimable); the pool invariant, hence exclusivity, holds for every run from a state satisfying it. Tied by crashing the real service at "
+                      "enumerated points and comparing the rebuilt pool and store with the model's restart.",
+        "level_note": "Trusted: Coq kernel, extraction, driver, harness, bolt. Inv (load_slot ...) is validated by the correspondence runs, not proved (partial); the stale-record finding is a known finding.",
+    },
+    "C09": {
+        "pkg": "./svc/", "test": "TestVerif_Svc", "n_quick": 400, "n_thorough": 20000, "env": {"VERIF_PROP": "C09"},
+        "rule": "as C04 with frequent GC passes over stores with records of running pods, exited sandboxes, pods deleted from the API, interfaces that are not on the machine, API failures and injected release failures; "
+                "after every pass the store and the pool are compared with the model's pass. non-trivial = at least one pass ran with a vanished pod's record in the store; distinct = distinct input vectors",
+        "trusted": ["testing/synctest virtual clock and quiescence detection (go1.26.8); gcPods is only started while no RPC holds the service's read lock (a goroutine parked on sync.RWMutex is not durably blocked for synctest)",
+                    "fake Kubernetes view (GetPod / GetLocalPods / PodExist with injectable API failure); recording store around the real bolt-backed DiskStorage with parking points before/after every Put and Delete",
+                    "simulated cloud and pool instrumentation as for C01; the replay's expansion of observations into labels is search code"],
+        "modelled": ["kernel rule cleanup (gcPolicyRoutes) runs for real on this host: the simulated interfaces are never present, so it takes the 'interface not on the node' path",
+                     "IPStickTime = 0; cleanRuntimeNode (CRD mode only) is not driven"],
+        "assumptions": ["E5: the kubelet retries failed DELs"],
+        "level_text": "Theorems over the pass as a function of (records, node's pod list, API answers incl. failures, cleanup results): only records of pods that are neither running locally nor known to the API are collected, "
+                      "and only on the API's word; every such record is collected by a pass whose cleanups work; the 'independent' clause is refuted for the unchanged tree with a witness (repaired by a fix: commit). "
+                      "Tied by running the real gcPods and comparing store + pool after every pass.",
+        "level_note": "Trusted: Coq kernel, extraction, driver, harness. In-flight safety (the service's RWMutex) is by construction of the handlers and is not exercised concurrently (synctest limitation stated in the trusted base).",
+    },
 }
 
 
@@ -657,3 +705,88 @@ def _dist_pool(cases):
 
 
 dist_C01 = dist_C06 = dist_C07 = _dist_pool
+
+
+# ---- service properties (C04 C05 C09) ------------------------------------------------------------
+def _svc_why(extra):
+    import re
+    m = re.search(r"why=(-?\d+)", extra or "")
+    return int(m.group(1)) // 100000 if m else 0
+
+
+def sig_C04(ins, outs, extra=""):
+    return "C04:clause%d" % _svc_why(extra)
+
+
+def sig_C05(ins, outs, extra=""):
+    code = _svc_why(extra)
+    try:
+        cfg, recs = pool_records(ins)
+        if code == 503:
+            # two records on disk claiming one address: a DEL released it and stalled before deleting its record
+            claims = {}
+            for r in recs:
+                if r[0] == 42 and r[1] == 2:
+                    claims[r[2]] = (r[4], r[5], r[6])
+                elif r[0] == 42 and r[1] == 4:
+                    claims.pop(r[2], None)
+                elif r[0] == 50 and len(set(claims.values())) < len(claims):
+                    return "C05:restart:acknowledged-allocation-lost-to-stale-record-of-unfinished-DEL"
+    except Exception:
+        pass
+    return "C05:clause%d" % code
+
+
+def sig_C09(ins, outs, extra=""):
+    code = _svc_why(extra)
+    return "C09:clause%d" % code
+
+
+def nt_C04(ins, outs):
+    return _pool_nt(ins, lambda recs: any(r[0] == 41 and r[3] == 1 for r in recs) or len({(r[2], r[3]) for r in recs if r[0] in (31, 32, 33)}) > len({r[2] for r in recs if r[0] in (31, 32, 33)}))
+
+
+def nt_C05(ins, outs):
+    def want(recs):
+        acked = False
+        for r in recs:
+            if r[0] == 41 and r[2] == 1 and r[3] == 0: acked = True
+            if r[0] == 50 and acked: return True
+        return False
+    return _pool_nt(ins, want)
+
+
+def nt_C09(ins, outs):
+    def want(recs):
+        gone = set(); stored = set()
+        for r in recs:
+            if r[0] == 35: gone.add(r[1])
+            if r[0] == 42 and r[1] == 2: stored.add(r[2])
+            if r[0] == 42 and r[1] == 4: stored.discard(r[2])
+            if r[0] == 34 and gone & stored: return True
+        return False
+    return _pool_nt(ins, want)
+
+
+def _dist_svc(cases):
+    names = {31: "add", 32: "del", 33: "get", 34: "gc", 35: "pod_gone", 36: "sandbox_exited", 37: "api_failure_toggle", 38: "crash", 39: "park_store_op",
+             40: "release_failure_toggle", 2: "cancel", 4: "complete_call", 5: "advance"}
+    d = {"histories": len(cases), "records": 0, "quiescent_snapshots": 0, "replies_ok": 0, "replies_processing": 0, "replies_error": 0,
+         "store_puts": 0, "store_deletes": 0, "restarts": 0, "stimuli": {v: 0 for v in names.values()}}
+    for _, ins, outs in cases:
+        try:
+            cfg, recs = pool_records(ins)
+        except Exception:
+            continue
+        d["records"] += len(recs)
+        for r in recs:
+            if r[0] in names: d["stimuli"][names[r[0]]] += 1
+            elif r[0] == 99: d["quiescent_snapshots"] += 1
+            elif r[0] == 41: d[["replies_ok", "replies_processing", "replies_error"][min(r[3], 2)]] += 1
+            elif r[0] == 42 and r[1] == 2: d["store_puts"] += 1
+            elif r[0] == 42 and r[1] == 4: d["store_deletes"] += 1
+            elif r[0] == 50: d["restarts"] += 1
+    return d
+
+
+dist_C04 = dist_C05 = dist_C09 = _dist_svc
